@@ -71,6 +71,9 @@ enum Edit {
     Push { id: u32 },
     Clear { id: u32 },
     Replace { id: u32 },
+    /// look the section up by name (`custom_sections.get_id(name)`: the first section of that name) and
+    /// append a byte through the ID it returns; nothing happens if there is none
+    PushByName { name: usize },
 }
 impl Edit {
     fn kind(&self, live: usize) -> String {
@@ -81,6 +84,7 @@ impl Edit {
             Edit::Push { id } => format!("push{}", oor(id)),
             Edit::Clear { id } => format!("clear{}", oor(id)),
             Edit::Replace { id } => format!("replace{}", oor(id)),
+            Edit::PushByName { .. } => "push-by-name".to_string(),
         }
     }
 }
@@ -261,6 +265,11 @@ fn judge(c: &Case) -> Outcome {
                     s.1 = vec![1, 2, 3]
                 }
             }
+            Edit::PushByName { name } => {
+                if let Some(s) = model.iter_mut().find(|s| s.0 == NAMES[*name]) {
+                    s.1.push(0x5B)
+                }
+            }
         }
         live = model.len();
     }
@@ -320,11 +329,23 @@ fn judge(c: &Case) -> Outcome {
                         *v = vec![1, 2, 3];
                     }
                 }
+                Edit::PushByName { name } => {
+                    if let Some(id) = module.custom_sections.get_id(NAMES[*name].to_string()) {
+                        if let Some(v) = module.custom_sections.get_section_data_mut(id) {
+                            v.push(0x5B);
+                        }
+                    }
+                }
             }
         }
-        module.encode()
+        let first = module.encode();
+        // the sections belong to the module, not to one encoding: asking for the report and encoding
+        // again must give the same bytes
+        let _ = module.pull_side_effects();
+        let again = module.encode();
+        (first, again)
     });
-    let out = match res {
+    let (out, again) = match res {
         Ok(b) => b,
         Err(p) => {
             o.fail(format!("panic edit-or-encode {}", p.site()), format!("{} at {}:{} on {:?}", p.msg, p.file, p.line, c));
@@ -333,6 +354,13 @@ fn judge(c: &Case) -> Outcome {
     };
     o.observed = hash_of(&out);
     o.count("edits", c.edits.len() as u64);
+    if again != out {
+        let what = match wasmutil::custom_sections(&again) {
+            Ok(g) => format!("custom sections of the later encoding: {:?}", g.iter().map(|(n, d)| (n.clone(), d.len())).collect::<Vec<_>>()),
+            Err(e) => format!("later encoding undecodable: {}", e),
+        };
+        o.fail(format!("later-encoding differs after-{}", last), format!("encode(); pull_side_effects(); encode() gives other bytes the second time; {}", what));
+    }
 
     let got = match wasmutil::custom_sections(&out) {
         Ok(g) => g,
@@ -461,6 +489,10 @@ fn edit_menu(live: usize, adds: &[(usize, usize)]) -> Vec<Edit> {
         v.push(Edit::Push { id });
         v.push(Edit::Clear { id });
         v.push(Edit::Replace { id });
+    }
+    // by name: a name that occurs (possibly twice) and one that may not
+    for name in [0usize, 1] {
+        v.push(Edit::PushByName { name });
     }
     v
 }
